@@ -542,6 +542,23 @@ func c19FeedWorker(args []string) int {
 		// (the worker is deterministic, so the parent can restart and skip it).
 		guard("answers:"+strings.ReplaceAll(fmt.Sprint(c19Prefix(c)), " ", ","), f)
 	})
+	// The same with two deviations on a 300-leaf tree for the feeders that read
+	// 256-wide tiles (a step 280 -> 300 needs partial tiles wider than anything
+	// an 8-leaf tree has; a fallback from one failed request to another is a
+	// two-deviation path): quick and thorough alike.
+	if name == "sumdb" || name == "tiles" || name == "serverless" {
+		uL := uni.New(ev.Seed(), 300, nil)
+		genL := wh.NewCPGen(uL)
+		_, _ = choice.ExploreSkip(2, func(prefix []int) bool { return skip["answersL:"+strings.ReplaceAll(fmt.Sprint(prefix), " ", ",")] }, func(c *choice.C) {
+			f := func() (int, error) {
+				return c19RunCycle(uL, genL, name, nil, 300, 280, func(i int, path string) string {
+					menu := c19MenuL
+					return menu[c.Choose(len(menu), fmt.Sprintf("req%d", i))]
+				})
+			}
+			guard("answersL:"+strings.ReplaceAll(fmt.Sprint(c19Prefix(c)), " ", ","), f)
+		})
+	}
 	// Hostile log-signed checkpoints.
 	if name != "distributor" {
 		origin := c19Origin(name)
@@ -574,6 +591,10 @@ func c19FeedWorker(args []string) int {
 // c19Prefix exposes the prefix a chooser was started with (its identity
 // before the execution runs).
 func c19Prefix(c *choice.C) []int { return c.Prefix() }
+
+// c19MenuL: the answers of the large-tree exploration (failures, and bodies
+// that are short / empty / of the wrong length while still 'consistent').
+var c19MenuL = []string{"", "http-404", "http-500", "conn-reset", "empty", "truncated-half", "one-byte", "thirty-one-bytes", "zeros-same-length", "drop-last-byte", "append-byte", "unknown-length-empty"}
 
 func c19Feeds(run *ev.Run, tier string) int64 {
 	self, _ := os.Executable()
@@ -688,7 +709,7 @@ func c19CaseClass(id string) string {
 		fmt.Sscanf(strings.ReplaceAll(strings.TrimPrefix(id, "hostile:"), ":", " "), "%d %d %t", &si, &hl, &has)
 		return fmt.Sprintf("log-signed-size=%s witness-has-checkpoint=%v", c19SizeClass(c19Sizes[si]), has)
 	}
-	if strings.HasPrefix(id, "answers:") {
+	if strings.HasPrefix(id, "answers:") || strings.HasPrefix(id, "answersL:") {
 		return "environment-answers"
 	}
 	return id
@@ -706,7 +727,7 @@ func c19(tier string) int {
 	run.Set("feeder_cycles", n2)
 	run.Set("evaluations", n1+n2)
 	run.Set("exhaustive", true)
-	run.Set("rule", "endpoint: the complete 1-edit neighbourhood (every prefix, deletion, bit flip, 14 insert tokens at every position) of a valid request of 11 verdict classes, all token strings up to 4 (quick) / 5 (thorough) tokens over 13 tokens, and size-boundary bodies (16383/16384/16385 bytes, 5000-byte proof line, 3000 proof lines, a proof line longer than the reader's buffer), each sent to the real handler behind the 16 KiB cap in front of the real witness in two states, and through parseBody and Proof.Unmarshal: no panic, exactly one response, status in {200,400,403,404,409,422,429,500}. Feeders (sumdb, tiles, pixel, rekor, serverless) and distributor: one cycle in a worker subprocess for every placement of up to 1 (quick) / 2 (thorough) deviating answers from a 27-item menu (empty, truncated at several places, oversized, non-UTF-8, wrong content, seven type-confused / degenerate JSON shapes, one byte, 31 bytes, serverless tile header only / huge leaf count, last byte dropped / extra byte, zeros, 204, 302 without Location, 404, 500, reset) at every request position, and for log-signed checkpoints with size in {0,1,2^62-1,2^62,2^62+1,2^63-1,2^63,2^64-1} x root hash length {0,5,31,32,33} x witness {empty, size 1}: must end with a result or an error (no panic, no process exit, no stall: 20 s without progress, confirmed 3 times). distinct_nontrivial = distinct feeder cases")
+	run.Set("rule", "endpoint: the complete 1-edit neighbourhood (every prefix, deletion, bit flip, 14 insert tokens at every position) of a valid request of 11 verdict classes, all token strings up to 4 (quick) / 5 (thorough) tokens over 13 tokens, and size-boundary bodies (16383/16384/16385 bytes, 5000-byte proof line, 3000 proof lines, a proof line longer than the reader's buffer), each sent to the real handler behind the 16 KiB cap in front of the real witness in two states, and through parseBody and Proof.Unmarshal: no panic, exactly one response, status in {200,400,403,404,409,422,429,500}. Feeders (sumdb, tiles, pixel, rekor, serverless) and distributor: one cycle in a worker subprocess for every placement of up to 1 (quick) / 2 (thorough) deviating answers from a 27-item menu (empty, truncated at several places, oversized, non-UTF-8, wrong content, seven type-confused / degenerate JSON shapes, one byte, 31 bytes, serverless tile header only / huge leaf count, last byte dropped / extra byte, zeros, 204, 302 without Location, 404, 500, reset) at every request position; for sumdb, tiles and serverless additionally every placement of up to 2 answers from a 12-item menu (failures and short / empty / wrong-length bodies) in a step 280 -> 300 of a 300-leaf tree (partial tiles up to 44 wide), in both tiers; and for log-signed checkpoints with size in {0,1,2^62-1,2^62,2^62+1,2^63-1,2^63,2^64-1} x root hash length {0,5,31,32,33} x witness {empty, size 1}: must end with a result or an error (no panic, no process exit, no stall: 20 s without progress, confirmed 3 times). distinct_nontrivial = distinct feeder cases")
 	run.Assumption("a retry loop that keeps retrying until its context ends is by design: cycles run with a context that ends at the first back-off wait")
 	run.Assumption("not all byte strings up to 16 KiB: the stated neighbourhoods and menus, completely (coverage-guided fuzzing would be a different technique family)")
 	return run.Finish()
@@ -726,6 +747,25 @@ func c19ReplayCase(m map[string]any) int {
 	gen := wh.NewCPGen(u)
 	var f func() (int, error)
 	switch {
+	case strings.HasPrefix(id, "answersL:"):
+		var idx []int
+		for _, t := range strings.Split(strings.Trim(strings.TrimPrefix(id, "answersL:"), "[]"), ",") {
+			var k int
+			if _, err := fmt.Sscanf(strings.TrimSpace(t), "%d", &k); err == nil {
+				idx = append(idx, k)
+			}
+		}
+		uL := uni.New(ev.Seed(), 300, nil)
+		genL := wh.NewCPGen(uL)
+		f = func() (int, error) {
+			return c19RunCycle(uL, genL, name, nil, 300, 280, func(i int, path string) string {
+				if i < len(idx) && idx[i] < len(c19MenuL) {
+					fmt.Printf("  request %d (%s): answer %q\n", i, path, c19MenuL[idx[i]])
+					return c19MenuL[idx[i]]
+				}
+				return ""
+			})
+		}
 	case strings.HasPrefix(id, "answers:"):
 		var idx []int
 		for _, t := range strings.Split(strings.Trim(strings.TrimPrefix(id, "answers:"), "[]"), ",") {
